@@ -15,7 +15,7 @@ Local Open Scope N_scope.
 Theorem C17_unknown_key :
   forall env prop orc orcq reg p k y v0 v s cur acc,
     insert_key p k y v0 = Some v ->
-    classify reg false p s cur v = PStrict acc -> accepted_b k acc = false ->
+    classify reg false false p s cur v = PStrict acc -> accepted_b k acc = false ->
     forall F c, notok (decode_and_validate env prop orc orcq reg false F s c v).
 Proof. intros. apply dv_notok. eapply unknown_key_insert; eauto. Qed.
 Print Assumptions C17_unknown_key.
@@ -28,7 +28,7 @@ Print Assumptions C17_unknown_key.
 Theorem C17_builtin_unknown_key :
   (forall env prop orc orcq p k y v0 v acc,
     insert_key p k y v0 = Some v ->
-    classify gen_registry model_factory_lazy p gen_root_schema gen_root_default v = PStrict acc ->
+    classify gen_registry model_factory_lazy false p gen_root_schema gen_root_default v = PStrict acc ->
     accepted_b k acc = false ->
     forall F c, notok (decode_and_validate env prop orc orcq gen_registry model_factory_lazy F gen_root_schema c v))
   /\ model_factory_lazy = false
@@ -81,14 +81,14 @@ Print Assumptions C17_discard_default.
 
 (* Wrongly typed value / value violating its validate tag, at any depth reached by the decoder. *)
 Theorem C17_type_and_range :
-  forall env prop orc orcq reg lz,
+  forall env prop orc orcq reg lz uq,
   (forall p s cur v s' tags d x,
-     reach reg lz p [] s cur v = Some (s', tags, d, x) ->
+     reach reg lz uq p [] s cur v = Some (s', tags, d, x) ->
      (wrong_type_b s' x = true \/ exists t, x = VStr t /\ wrong_type_str_b s' t = true) ->
      forall F c, notok (decode env prop orc orcq reg lz F s c v))
   /\
   (forall p s cur v iface fk tags d0 kvs e nl fs d i f k' x,
-     reach reg lz p [] s cur v = Some (SPlugin iface fk, tags, d0, VMap kvs) ->
+     reach reg lz uq p [] s cur v = Some (SPlugin iface fk, tags, d0, VMap kvs) ->
      plugin_entry reg iface kvs = Some e -> e_conf e = Some (SStruct nl fs, d) -> entry_lazy lz fk e = false ->
      nth_error (flat_fields (SStruct nl fs)) i = Some f ->
      find_key (f_key f) (filter (fun kv => negb (is_type_key kv)) kvs) = Some (k', x) ->
@@ -109,7 +109,7 @@ Print Assumptions C17_type_and_range.
    placeholder is decoded like the literal its text casts to, or like the text itself; an unset variable is an
    error wherever the decoder reaches it; text without "${" is unchanged. *)
 Theorem C17_placeholders :
-  forall env prop orc orcq reg lz,
+  forall env prop orc orcq reg lz uq,
   (forall name t k F c,
      simple_name name = true -> env name = Some t -> has_dollar_brace t = false ->
      decode env prop orc orcq reg lz (S F) (SScalar k) c (VStr (ph_env name)) =
@@ -120,7 +120,7 @@ Theorem C17_placeholders :
      end)
   /\
   (forall p s cur v s' tags d name,
-     reach reg lz p [] s cur v = Some (s', tags, d, VStr (ph_env name)) ->
+     reach reg lz uq p [] s cur v = Some (s', tags, d, VStr (ph_env name)) ->
      simple_name name = true -> env name = None ->
      forall F c, notok (decode env prop orc orcq reg lz F s c v))
   /\
@@ -130,8 +130,8 @@ Print Assumptions C17_placeholders.
 
 (* Error propagation, the lemma everything above rests on: a failing sub-problem fails the whole decode. *)
 Theorem C17_error_propagation :
-  forall env prop orc orcq reg lz p tags s cur v s' tags' cur' x,
-    reach reg lz p tags s cur v = Some (s', tags', cur', x) ->
+  forall env prop orc orcq reg lz uq p tags s cur v s' tags' cur' x,
+    reach reg lz uq p tags s cur v = Some (s', tags', cur', x) ->
     (forall F c, notok (decode env prop orc orcq reg lz F s' c x)) ->
     forall F c, notok (decode env prop orc orcq reg lz F s c v).
 Proof. exact propagate. Qed.
@@ -176,7 +176,7 @@ Definition is_err (r : res cval) : bool := match r with Err _ => true | _ => fal
 Example C17_example_pool :
   is_ok (ex_run (ex_cfg (ex_const []))) = true /\
   is_err (ex_run (ex_cfg (ex_const [([102;114;111;109], VInt 1)]))) = true /\
-  classify gen_registry false [SKey s_pools; SIdx 0; SKey [114;112;115]] gen_root_schema gen_root_default
+  classify gen_registry false false [SKey s_pools; SIdx 0; SKey [114;112;115]] gen_root_schema gen_root_default
      (ex_cfg (ex_const [([102;114;111;109], VInt 1)]))
    = PStrict [s_type; [79;112;115]; [68;117;114;97;116;105;111;110]] /\
   is_err (ex_run (ex_cfg (ex_plug [99;111;110;115;116] [([111;112;115], VInt (-1)); ([100;117;114;97;116;105;111;110], VInt 1000000000)]))) = true /\
